@@ -111,6 +111,10 @@ pub struct Printed {
     pub features: BTreeSet<&'static str>,
     /// indices (into the record list) of the records the text denotes, in file order
     pub denoted: Vec<usize>,
+    /// the text of each plan item (item i of the plan is `item_lines[i]`; a parenthesised record
+    /// may span several physical lines), and the line terminator that joins them
+    pub item_lines: Vec<String>,
+    pub nl: &'static str,
 }
 
 /// all layout features the printer can produce; `RISKY` ones are known to hit confirmed parser
@@ -680,7 +684,7 @@ pub fn print(origin0: &[Vec<u8>], recs: &[Rec], plan: &Plan) -> Printed {
     } else if lines.last().map(|l| !l.is_empty()).unwrap_or(false) {
         feats.insert("no-final-newline");
     }
-    Printed { text, features: feats, denoted }
+    Printed { text, features: feats, denoted, item_lines: lines, nl }
 }
 
 // ---------------------------------------------------------------------------------------------
